@@ -285,6 +285,30 @@ func c18Case(c *ctx, t typeSpec, wrapped bool, sets []setOp, id string, ops []c1
 					}
 				}
 			}
+			// the new instance shares neither values nor type with its source
+			srcBefore := readAll(t, src)
+			srcFields := len(src.Attrs()) + len(src.Rels())
+			for _, f := range t.fields {
+				if f.rel && f.toOne {
+					n.Set(f.name, "set-on-new")
+				} else if f.rel {
+					n.Set(f.name, []string{"set", "on", "new"})
+				} else {
+					n.Set(f.name, randValue(c.r, f.code, f.nullable, false))
+				}
+			}
+			n.Set("id", "new-id")
+			if nsr, ok := n.(*jsonapi.SoftResource); ok {
+				nsr.AddAttr(jsonapi.Attr{Name: "added-to-new", Type: jsonapi.AttrTypeBool})
+				if len(t.fields) > 1 {
+					nsr.RemoveField(fieldOrder(t)[1])
+				}
+			}
+			if len(src.Attrs())+len(src.Rels()) != srcFields {
+				key, detail = "type-shared-with-new", "editing the type of the resource returned by New() changed the source's fields"
+			} else if !reflect.DeepEqual(srcBefore, readAll(t, src)) {
+				key, detail = "new-not-independent", "writing to the resource returned by New() changed what is read from the source"
+			}
 			tc := t.softType()
 			tc2 := tc.Copy()
 			_ = tc2.AddAttr(jsonapi.Attr{Name: "zz-added", Type: jsonapi.AttrTypeInt})
